@@ -456,6 +456,17 @@ fn chain(obs: &mut Obs, rng: &mut Rng, b0: &[u8], fmt_k: u64, how: &dyn Fn() -> 
                 return ChainResult::Reported;
             }
         }
+        // Known finding C11-seven-bit-safety-analysis-simplified. Trigger: b0 carries the seven-bit-safe flag and the only
+        // warning is NotReallySevenBitSafe. Deviation model (own reader): PLtoTF's analysis (first step per right-hand
+        // character wins, boundary character, left-boundary program) says safe, the simplified analysis says unsafe.
+        if w1.len() == 1 && variant_name(&w1[0].kind) == "NotReallySevenBitSafe" {
+            if let Ok(r) = RawFont::parse(b0) {
+                if r.header.len() >= 18 && r.header[17][0] >= 128 && r.seven_bit_safe_by(true) == Some(true) && r.seven_bit_safe_by(false) == Some(false) {
+                    obs.known("C11-seven-bit-safety-analysis-simplified", witness(json!({"pl1": clip(&pl1, 3000)})));
+                    return ChainResult::Reported;
+                }
+            }
+        }
         obs.violation(
             format!("warning-after-step-one:PL1->b1:{}", variant_name(&w1[0].kind)),
             witness(json!({"warnings": format!("{:?}", w1.iter().take(5).collect::<Vec<_>>()), "pl1": clip(&pl1, 3000)})),
@@ -1296,7 +1307,17 @@ impl Monitor for M {
                 let (b0, packlog) = if phase == "repack" {
                     match RawFont::parse(&b0) {
                         Ok(r) => {
-                            let (r2, log) = repack(rng, &r);
+                            let (mut r2, mut log) = repack(rng, &r);
+                            // a font whose seven-bit-safe flag was set by an independent tool: PLtoTF must accept the
+                            // flag without a warning exactly when the font IS seven-bit safe (own judgement from the
+                            // raw tables, RawFont::seven_bit_safe)
+                            if r2.header.len() >= 18 && rng.coin() && r2.seven_bit_safe() == Some(true) {
+                                r2.header[17][0] = 128;
+                                log.push("seven-bit-safe flag set (font is seven-bit safe by own judgement)");
+                                if (128..=255u16).any(|c| r2.exists(c)) {
+                                    obs.count("feature:seven_bit_safe_flag_on_font_with_eight_bit_characters");
+                                }
+                            }
                             (r2.to_bytes(), log)
                         }
                         Err(e) => {
